@@ -412,6 +412,19 @@ class SymExec:
             return self.call(n, st)
         if k == "InitListExpr":
             return Vec(self.expr(e, st) for e in ks)
+        if k in ("CXXConstructExpr", "CXXTemporaryObjectExpr", "CXXFunctionalCastExpr") and "fvec4" in C.qtype(n):
+            vals = [self.expr(x, st) for x in ks]
+            if len(vals) == 4:
+                return Vec(_val(v) for v in vals)
+            if len(vals) == 1:
+                v = vals[0]
+                if isinstance(v, Vec):
+                    return v
+                if isinstance(v, Ptr):
+                    return _load(st, v, 4)
+                return Vec([_val(v)] * 4)
+            if not vals:
+                return Vec([Rat(Poly.const(0))] * 4)
         if k in ("CXXConstructExpr", "CXXTemporaryObjectExpr") and len(ks) == 1:
             return self.expr(ks[0], st)
         if k == "UnaryExprOrTypeTraitExpr":
@@ -490,7 +503,62 @@ class SymExec:
         raise Unsupported("binary %s" % op)
 
     # ------------------------------------------------------------------ calls
+    def vec_operator(self, n, st):
+        """fvec4 arithmetic (CXXOperatorCallExpr); returns NotImplemented when the operands are not lane vectors"""
+        op = (C.callee_name(n) or "").replace("operator", "")
+        argn = C.call_args(n)
+        if op == "[]":
+            base = self.expr(argn[0], st)
+            if isinstance(base, Vec):
+                i = _const_int(self.expr(argn[1], st))
+                if i is None:
+                    raise Unsupported("fvec4 lane index not constant")
+                return base[i]
+            if isinstance(base, Ptr):
+                return st.get(self._elt(base, self.expr(argn[1], st)))
+            return NotImplemented
+        if op in ("+", "-", "*", "/") and len(argn) == 2:
+            a, b = self.expr(argn[0], st), self.expr(argn[1], st)
+            if not (isinstance(a, Vec) or isinstance(b, Vec)):
+                return NotImplemented
+            a = a if isinstance(a, Vec) else Vec([_val(a)] * 4)
+            b = b if isinstance(b, Vec) else Vec([_val(b)] * 4)
+            f = {"+": lambda x, y: x + y, "-": lambda x, y: x - y, "*": lambda x, y: x * y, "/": lambda x, y: x / y}[op]
+            return Vec(f(x, y) for x, y in zip(a, b))
+        if op == "-" and len(argn) == 1:
+            a = self.expr(argn[0], st)
+            if isinstance(a, Vec):
+                return Vec(-x for x in a)
+            return NotImplemented
+        if op in ("+=", "-=", "*=", "/=") and len(argn) == 2:
+            key = self.lvalue(argn[0], st)
+            a = st.env.get(key)
+            if not isinstance(a, Vec):
+                return NotImplemented
+            b = self.expr(argn[1], st)
+            b = b if isinstance(b, Vec) else Vec([_val(b)] * 4)
+            f = {"+": lambda x, y: x + y, "-": lambda x, y: x - y, "*": lambda x, y: x * y, "/": lambda x, y: x / y}[op[0]]
+            st.env[key] = Vec(f(x, y) for x, y in zip(a, b))
+            return st.env[key]
+        if op == "=" and len(argn) == 2:
+            v = self.expr(argn[1], st)
+            st.env[self.lvalue(argn[0], st)] = v
+            return v
+        return NotImplemented
+
     def call(self, n, st):
+        if n.get("kind") == "CXXOperatorCallExpr":
+            r = self.vec_operator(n, st)
+            if r is not NotImplemented:
+                return r
+        if n.get("kind") == "CXXMemberCallExpr" and (C.callee_name(n) or "") == "store":
+            ks = C.kids(n)
+            obj = C.kids(C.strip(ks[0]))[0] if ks and C.kids(C.strip(ks[0])) else None
+            v = self.expr(obj, st) if obj is not None else None
+            if isinstance(v, Vec):
+                tgt = self.expr(C.call_args(n)[0], st)
+                _store(st, tgt, v, 4)
+                return Rat(Poly.const(0))
         name = C.callee_name(n) or "?"
         name = _MATH.get(name, name)
         argn = C.call_args(n)
@@ -609,6 +677,15 @@ def _deref(st, p):
 
 def _intrinsic(name, a, st):
     z = Rat(Poly.const(0))
+    if name in ("dot3", "dot4") and len(a) == 2 and isinstance(a[0], Vec) and isinstance(a[1], Vec):
+        k = 3 if name == "dot3" else 4
+        tot = z
+        for i in range(k):
+            tot = tot + a[0][i] * a[1][i]
+        return tot
+    if name == "cross" and len(a) == 2 and isinstance(a[0], Vec) and isinstance(a[1], Vec):
+        x, y = a
+        return Vec([x[1] * y[2] - x[2] * y[1], x[2] * y[0] - x[0] * y[2], x[0] * y[1] - x[1] * y[0], z])
     if name in ("_mm_setzero_ps",):
         return Vec([z] * 4)
     if name in ("_mm_setzero_pd",):
